@@ -35,6 +35,31 @@ def SimFields (fns : List FnDef) (P : Prog) (n : Nat) : Prop :=
       ∃ σ1, ExecC P σ code t (.normal σ1) ∧ σ1 (.t k) = .recd (pre ++ fs) ∧ Agree env' σ1 ∧ Frame k σ σ1) ∧
     (∀ t v, evalInts fns n env es = ⟨t, .ret v⟩ → ExecC P σ code t (.returned v))
 
+/-- the elements of a list literal: `lst` (a temporary below the counter) holds the list so far -/
+def SimElems (fns : List FnDef) (P : Prog) (n : Nat) : Prop :=
+  ∀ (es : Exprs) (env : Env) (k u c : Nat) (code : Code) (c' : Nat) (σ : Store) (pre : List Int),
+    lowerElems es (.t k) (.t u) c = some (code, c') → Agree env σ → k < c → σ (.t k) = .list pre →
+    (∀ t env' fs, evalInts fns n env es = ⟨t, .ok (env', fs)⟩ →
+      ∃ σ1, ExecC P σ code t (.normal σ1) ∧ σ1 (.t k) = .list (pre ++ fs) ∧ Agree env' σ1 ∧ Frame k σ σ1) ∧
+    (∀ t v, evalInts fns n env es = ⟨t, .ret v⟩ → ExecC P σ code t (.returned v))
+
+/-- a `for` loop from index `j` on: `all` is the whole list, `xs` what is left of it -/
+def SimFor (fns : List FnDef) (P : Prog) (n : Nat) : Prop :=
+  ∀ (x : Nat) (b : Block) (env : Env) (all xs : List Int) (j kl c2 copt : Nat) (cb : Code) (xb : Var) (c3 : Nat) (σ : Store),
+    lowerBlock b (c2 + 4) = some (cb, xb, c3) → Agree env σ → σ (.t kl) = .list all → σ (.t c2) = .int (j : Nat) →
+    all.drop j = xs → copt < kl → kl < c2 →
+    (∀ t env' v, evalFor fns n env x xs b = ⟨t, .ok (env', v)⟩ →
+      ∃ σ1, ExecS P σ (.forL [.assign (.t (c2 + 2)) (.clone (.t kl)), .assign (.t copt) (.listGet (.t (c2 + 2)) (.t c2)),
+            .assign (.t (c2 + 3)) (.disc (.t copt))] (.t (c2 + 3))
+          ([.assign (.x x) (.cloneProj (.t copt) 0 0)] ++ cb)
+          [.assign (.t (c2 + 1)) (.const (.int 1)), .assign (.t c2) (.idxAdd (.t c2) (.t (c2 + 1)))]) t (.normal σ1)
+        ∧ v = .unit ∧ Agree env' σ1 ∧ Frame copt σ σ1) ∧
+    (∀ t w, evalFor fns n env x xs b = ⟨t, .ret w⟩ →
+      ExecS P σ (.forL [.assign (.t (c2 + 2)) (.clone (.t kl)), .assign (.t copt) (.listGet (.t (c2 + 2)) (.t c2)),
+            .assign (.t (c2 + 3)) (.disc (.t copt))] (.t (c2 + 3))
+          ([.assign (.x x) (.cloneProj (.t copt) 0 0)] ++ cb)
+          [.assign (.t (c2 + 1)) (.const (.int 1)), .assign (.t c2) (.idxAdd (.t c2) (.t (c2 + 1)))]) t (.returned w))
+
 /-- the parts of an f-string: `acc` (a temporary below the counter) holds the text so far -/
 def SimParts (fns : List FnDef) (P : Prog) (n : Nat) : Prop :=
   ∀ (ps : Parts) (env : Env) (k c : Nat) (code : Code) (c' : Nat) (σ : Store) (acc : String),
@@ -129,7 +154,8 @@ theorem SimE.ret {fns P n} (hE : SimE fns P n) {e env c code value c1 σ t v}
 theorem R.ok_eq {α} (a : α) : (R.ok a : R α) = ⟨[], .ok a⟩ := rfl
 
 theorem simE_step {fns P n} (hE : SimE fns P n) (hA : SimArgs fns P n) (hF : SimFields fns P n) (hB : SimBlock fns P n)
-    (hW : SimWhile fns P n) (hC : SimChain fns P n) (hK : SimCtor fns P n) (hS : SimParts fns P n) (hP : ProgOk fns P) :
+    (hW : SimWhile fns P n) (hC : SimChain fns P n) (hK : SimCtor fns P n) (hS : SimParts fns P n) (hL : SimElems fns P n) (hR : SimFor fns P n)
+    (hP : ProgOk fns P) :
     SimE fns P (n + 1) := by
   intro e env c code value c' σ hl ha
   cases e with
@@ -963,7 +989,57 @@ theorem simE_step {fns P n} (hE : SimE fns P n) (hA : SimArgs fns P n) (hF : Sim
             have := ExecC.append hx1 (ExecC.cons s1 (ExecC.single s2))
             simpa [List.append_assoc] using this
         · simp [hok, R.stuck] at h2'
-  | «for» x l b => simp [lowerE] at hl
+  | «for» x l b =>
+    simp [lowerE, Option.bind_eq_some_iff] at hl
+    obtain ⟨cl, vl, c1, h1, cb, xb, c3, h2, rfl, rfl, rfl⟩ := hl
+    have ⟨m1, b1⟩ := lowerE_mono l _ cl vl c1 h1
+    have ⟨a1, kl, hkl, hkl'⟩ := atv_spec vl c1 b1
+    constructor
+    · intro t env' w h
+      simp only [evalExpr, bind_eq, bind_ok_iff] at h
+      obtain ⟨t1, ⟨env1, lv⟩, t2, hel, h2', rfl⟩ := h
+      obtain ⟨σ1, hx1, hv1, ha1, hf1⟩ := hE.mat h1 ha hel
+      cases lv with
+      | list xs =>
+        simp only at h2'
+        -- the list temporary lies above the option temporary: it was allocated later
+        have hkl0 : c < kl := by
+          have := atvVar_lower l (c + 1) cl vl c1 h1 hkl; omega
+        have s0 : ExecS P σ1 (.assign (.t (atvNext vl c1)) (.const (.int 0))) []
+            (.normal (σ1.set (.t (atvNext vl c1)) (.int (0 : Nat)))) := .assign (.pure (by simp [evalValue]))
+        rw [hkl] at hv1
+        have hlst : (σ1.set (.t (atvNext vl c1)) (.int (0 : Nat))) (.t kl) = .list xs := by
+          rw [set_other _ _ (by intro h; cases h <;> omega), hv1]
+        obtain ⟨σ2, hx2, rfl, ha2, hf2⟩ := (hR x b env1 xs xs 0 kl (atvNext vl c1) c cb xb c3 _ h2 (ha1.set_tmp _ _) hlst
+          (by simp) (by simp) hkl0 hkl').1 t2 env' w h2'
+        refine ⟨σ2, t1 ++ t2, [], ?_, .pure (by simp [evalValue]), by simp, ha2,
+          (hf1.mono (by omega)).trans ((Frame.set_tmp _ _ (by omega)).trans hf2 (Nat.le_refl _)) (Nat.le_refl _)⟩
+        have := ExecC.append hx1 (ExecC.cons s0 (ExecC.single hx2))
+        rw [hkl]
+        simpa [List.append_assoc] using this
+      | _ => simp [R.stuck] at h2'
+    · intro t w h
+      simp only [evalExpr, bind_eq, bind_ret_iff] at h
+      rcases h with h | ⟨t1, ⟨env1, lv⟩, t2, hel, h2', rfl⟩
+      · have := hE.ret h1 ha h
+        simpa [List.append_assoc] using ExecC.append_ret _ this
+      · obtain ⟨σ1, hx1, hv1, ha1, hf1⟩ := hE.mat h1 ha hel
+        cases lv with
+        | list xs =>
+          simp only at h2'
+          have hkl0 : c < kl := by
+            have := atvVar_lower l (c + 1) cl vl c1 h1 hkl; omega
+          have s0 : ExecS P σ1 (.assign (.t (atvNext vl c1)) (.const (.int 0))) []
+              (.normal (σ1.set (.t (atvNext vl c1)) (.int (0 : Nat)))) := .assign (.pure (by simp [evalValue]))
+          rw [hkl] at hv1
+          have hlst : (σ1.set (.t (atvNext vl c1)) (.int (0 : Nat))) (.t kl) = .list xs := by
+            rw [set_other _ _ (by intro h; cases h <;> omega), hv1]
+          have hx2 := (hR x b env1 xs xs 0 kl (atvNext vl c1) c cb xb c3 _ h2 (ha1.set_tmp _ _) hlst
+            (by simp) (by simp) hkl0 hkl').2 t2 w h2'
+          have := ExecC.append hx1 (ExecC.cons s0 (ExecC.consRet (rest := []) hx2))
+          rw [hkl]
+          simpa [List.append_assoc] using this
+        | _ => simp [R.stuck] at h2'
   | ctor k args =>
     simp [lowerE, Option.bind_eq_some_iff] at hl
     obtain ⟨ca, xs, c1, h1, rfl, rfl, rfl⟩ := hl
@@ -989,7 +1065,7 @@ theorem simE_step {fns P n} (hE : SimE fns P n) (hA : SimArgs fns P n) (hF : Sim
         rw [hk2 (.x x) (by intro h; cases h), set_other _ _ (by intro h; cases h)]
         exact ha1 x v hx
       · intro j hj
-        rw [hk2 (.t j) (by intro h; cases h; omega), set_other _ _ (by intro h; cases h; omega)]
+        rw [hk2 (.t j) (by intro h; cases h <;> omega), set_other _ _ (by intro h; cases h <;> omega)]
         exact hf1 j hj
     · intro t w h
       simp only [evalExpr, bind_eq, bind_ret_iff] at h
@@ -1079,7 +1155,28 @@ theorem simE_step {fns P n} (hE : SimE fns P n) (hA : SimArgs fns P n) (hF : Sim
       · cases a with
         | recd fs => cases hfi : fs[i]? <;> simp [hfi, pure_eq, R.ok, R.stuck] at h2'
         | _ => simp [R.stuck] at h2'
-  | list es => simp [lowerE] at hl
+  | list es =>
+    simp [lowerE, Option.bind_eq_some_iff] at hl
+    obtain ⟨ce, c1, h1, rfl, rfl, rfl⟩ := hl
+    have m1 := lowerElems_mono es _ _ _ ce c1 h1
+    have h0 : ExecS P σ (.assign (.t c) .listNew) [] (.normal (σ.set (.t c) (.list []))) :=
+      .assign (.pure (by simp [evalValue]))
+    have hL' := hL es env c (c + 1) (c + 2) ce c1 (σ.set (.t c) (.list [])) [] h1 (ha.set_tmp _ _) (by omega) (by simp)
+    constructor
+    · intro t env' w h
+      simp only [evalExpr, bind_eq, bind_ok_iff] at h
+      obtain ⟨t1, ⟨env1, fs⟩, t2, hargs, h2', rfl⟩ := h
+      simp [pure_eq, R.ok] at h2'
+      obtain ⟨rfl, rfl, rfl⟩ := h2'
+      obtain ⟨σ1, hx1, hv1, ha1, hf1⟩ := hL'.1 t1 env1 fs hargs
+      refine ⟨σ1, t1, [], ?_, .pure (by simp [evalValue, hv1]), by simp, ha1,
+        (Frame.set_tmp σ _ (Nat.le_refl c)).trans hf1 (Nat.le_refl _)⟩
+      simpa using ExecC.cons h0 hx1
+    · intro t w h
+      simp only [evalExpr, bind_eq, bind_ret_iff] at h
+      rcases h with h | ⟨t1, ⟨env1, fs⟩, t2, hargs, h2', rfl⟩
+      · simpa using ExecC.cons h0 (hL'.2 t w h)
+      · simp [pure_eq, R.ok] at h2'
   | fstr ps =>
     simp [lowerE, Option.bind_eq_some_iff] at hl
     obtain ⟨cp, c1, h1, rfl, rfl, rfl⟩ := hl
@@ -1506,6 +1603,193 @@ theorem simParts_step {fns P n} (hE : SimE fns P n) (hS : SimParts fns P n) : Si
             simpa [List.append_assoc] using this
           · simp [pure_eq, R.ok] at h4
 
+theorem simElems_step {fns P n} (hE : SimE fns P n) (hL : SimElems fns P n) : SimElems fns P (n + 1) := by
+  intro es env k u c code c' σ pre hl ha hk hσ
+  cases es with
+  | nil =>
+    simp [lowerElems] at hl; obtain ⟨rfl, rfl⟩ := hl
+    constructor
+    · intro t env' fs h
+      simp [evalInts, R.ok] at h
+      obtain ⟨rfl, rfl, rfl⟩ := h
+      exact ⟨σ, .nil, by simpa using hσ, ha, Frame.refl _ _⟩
+    · intro t v h; simp [evalInts, R.ok] at h
+  | cons e es =>
+    simp [lowerElems, Option.bind_eq_some_iff] at hl
+    obtain ⟨ce, ve, c1, h1, cs, h2, rfl⟩ := hl
+    have ⟨m1, _⟩ := lowerE_mono e (c + 1) ce ve c1 h1
+    have hnekc : Var.t k ≠ .t c := by intro h; cases h; omega
+    have hnekc1 : Var.t k ≠ .t c1 := by intro h; cases h; omega
+    have s0 : ExecS P σ (.assign (.t c) (.clone (.t k))) [] (.normal (σ.set (.t c) (.list pre))) :=
+      .assign (.pure (by simp [evalValue, hσ]))
+    have ha0 : Agree env (σ.set (.t c) (.list pre)) := ha.set_tmp _ _
+    -- once the element's value (an i32) is known: stored, pushed
+    have elem : ∀ t1 env1 nv, evalExpr fns n env e = ⟨t1, .ok (env1, .int nv)⟩ →
+        ∃ σ3, ExecC P σ ([.assign (.t c) (.clone (.t k))] ++ ce ++ [.assign (.t c1) ve, .push (.t c) (.t k) (.t c1) (.t u)]) t1
+            (.normal σ3) ∧ σ3 (.t k) = .list (pre ++ [nv]) ∧ Agree env1 σ3 ∧ Frame k σ σ3 := by
+      intro t1 env1 nv hel
+      obtain ⟨σ1, hx1, ha1, hf1⟩ := hE.store h1 ha0 hel (.t c1)
+      have hk1 : σ1 (.t k) = .list pre := by rw [hf1 k (by omega), set_other _ _ hnekc, hσ]
+      have s2 : ExecS P (σ1.set (.t c1) (.int nv)) (.push (.t c) (.t k) (.t c1) (.t u)) []
+          (.normal ((σ1.set (.t c1) (.int nv)).set (.t k) (.list (pre ++ [nv])))) :=
+        .push (by rw [set_other _ _ hnekc1, hk1]) (by simp)
+      refine ⟨(σ1.set (.t c1) (.int nv)).set (.t k) (.list (pre ++ [nv])), ?_, by simp, (ha1.set_tmp _ _).set_tmp _ _, ?_⟩
+      · have := ExecC.cons s0 (ExecC.append hx1 (ExecC.single s2))
+        simpa [List.append_assoc] using this
+      · exact (((Frame.set_tmp σ _ (by omega)).trans (hf1.mono (by omega)) (Nat.le_refl _)).trans
+          (Frame.set_tmp _ _ (by omega)) (Nat.le_refl _)).trans (Frame.set_tmp _ _ (Nat.le_refl _)) (Nat.le_refl _)
+    constructor
+    · intro t env' fs h
+      simp only [evalInts, bind_eq, bind_ok_iff] at h
+      obtain ⟨t1, ⟨env1, v⟩, t2, hel, h2', rfl⟩ := h
+      cases v with
+      | int nv =>
+        simp only [bind_eq, bind_ok_iff] at h2'
+        obtain ⟨t3, ⟨env2, fs'⟩, t4, hes, h4, rfl⟩ := h2'
+        simp [pure_eq, R.ok] at h4
+        obtain ⟨rfl, rfl, rfl⟩ := h4
+        obtain ⟨σ3, hx3, hv3, ha3, hf3⟩ := elem t1 env1 nv hel
+        obtain ⟨σ4, hx4, hv4, ha4, hf4⟩ := (hL es env1 k u (c1 + 1) cs c' σ3 (pre ++ [nv]) h2 ha3 (by omega) hv3).1 t3 env2 fs' hes
+        refine ⟨σ4, ?_, by simpa using hv4, ha4, hf3.trans hf4 (Nat.le_refl _)⟩
+        have := ExecC.append hx3 hx4
+        simpa [List.append_assoc] using this
+      | _ => simp [R.stuck] at h2'
+    · intro t w h
+      simp only [evalInts, bind_eq, bind_ret_iff] at h
+      rcases h with h | ⟨t1, ⟨env1, v⟩, t2, hel, h2', rfl⟩
+      · have := ExecC.cons s0 (ExecC.append_ret ([.assign (.t c1) ve, .push (.t c) (.t k) (.t c1) (.t u)] ++ cs) (hE.ret h1 ha0 h))
+        simpa [List.append_assoc] using this
+      · cases v with
+        | int nv =>
+          simp only [bind_eq, bind_ret_iff] at h2'
+          rcases h2' with h | ⟨t3, ⟨env2, fs'⟩, t4, hes, h4, rfl⟩
+          · obtain ⟨σ3, hx3, hv3, ha3, hf3⟩ := elem t1 env1 nv hel
+            have := ExecC.append hx3 ((hL es env1 k u (c1 + 1) cs c' σ3 (pre ++ [nv]) h2 ha3 (by omega) hv3).2 t2 w h)
+            simpa [List.append_assoc] using this
+          · simp [pure_eq, R.ok] at h4
+        | _ => simp [R.stuck] at h2'
+
+theorem simFor_step {fns P n} (hB : SimBlock fns P n) (hR : SimFor fns P n) : SimFor fns P (n + 1) := by
+  intro x b env all xs j kl c2 copt cb xb c3 σ hb ha hlst hidx hdrop hcopt hkl
+  have ⟨mb, _⟩ := lowerBlock_mono b (c2 + 4) cb xb c3 hb
+  -- the condition block
+  have cond : ∀ (o : Option Int), all[j]? = o →
+      ExecC P σ [.assign (.t (c2 + 2)) (.clone (.t kl)), .assign (.t copt) (.listGet (.t (c2 + 2)) (.t c2)),
+        .assign (.t (c2 + 3)) (.disc (.t copt))] []
+        (.normal (((σ.set (.t (c2 + 2)) (.list all)).set (.t copt) (.opt o)).set (.t (c2 + 3))
+          (.int (optDisc o : Nat)))) := by
+    intro o ho
+    have s1 : ExecS P σ (.assign (.t (c2 + 2)) (.clone (.t kl))) [] (.normal (σ.set (.t (c2 + 2)) (.list all))) :=
+      .assign (.pure (by simp [evalValue, hlst]))
+    have s2 : ExecS P (σ.set (.t (c2 + 2)) (.list all)) (.assign (.t copt) (.listGet (.t (c2 + 2)) (.t c2))) []
+        (.normal ((σ.set (.t (c2 + 2)) (.list all)).set (.t copt) (.opt o))) :=
+      .assign (.pure (by
+        have : (σ.set (.t (c2 + 2)) (.list all)) (.t c2) = .int (j : Nat) := by
+          rw [set_other _ _ (by intro h; cases h <;> omega), hidx]
+        simp [evalValue, this, ho]))
+    have s3 : ExecS P ((σ.set (.t (c2 + 2)) (.list all)).set (.t copt) (.opt o)) (.assign (.t (c2 + 3)) (.disc (.t copt))) []
+        (.normal (((σ.set (.t (c2 + 2)) (.list all)).set (.t copt) (.opt o)).set (.t (c2 + 3))
+          (.int (optDisc o : Nat)))) :=
+      .assign (.pure (by cases o <;> simp [evalValue, discOf, optDisc]))
+    simpa using ExecC.cons s1 (ExecC.cons s2 (ExecC.single s3))
+  cases xs with
+  | nil =>
+    have hget := drop_nil_get all j hdrop
+    constructor
+    · intro t env' v h
+      simp [evalFor, R.ok] at h
+      obtain ⟨rfl, rfl, rfl⟩ := h
+      refine ⟨_, .forDone (k := 1) (cond none hget) (by simp [optDisc]) (by omega), rfl, ((ha.set_tmp _ _).set_tmp _ _).set_tmp _ _, ?_⟩
+      exact ((Frame.set_tmp σ _ (by omega)).trans (Frame.set_tmp _ _ (Nat.le_refl _)) (Nat.le_refl _)).trans
+        (Frame.set_tmp _ _ (by omega)) (Nat.le_refl _)
+    · intro t w h; simp [evalFor, R.ok] at h
+  | cons v vs =>
+    obtain ⟨hget, hdrop'⟩ := drop_cons_get all j v vs hdrop
+    have hc := cond (some v) hget
+    -- the store after the condition block
+    generalize hσ1 : (((σ.set (.t (c2 + 2)) (.list all)).set (.t copt) (.opt (some v))).set (.t (c2 + 3))
+      (.int (optDisc (some v) : Nat))) = σ1 at hc
+    have ha1 : Agree env σ1 := by rw [← hσ1]; exact ((ha.set_tmp _ _).set_tmp _ _).set_tmp _ _
+    have hd1 : σ1 (.t (c2 + 3)) = .int 0 := by rw [← hσ1]; simp [optDisc]
+    have hopt1 : σ1 (.t copt) = .opt (some v) := by
+      rw [← hσ1, set_other _ _ (by intro h; cases h <;> omega)]; simp
+    have hlst1 : σ1 (.t kl) = .list all := by
+      rw [← hσ1, set_other _ _ (by intro h; cases h <;> omega), set_other _ _ (by intro h; cases h <;> omega),
+        set_other _ _ (by intro h; cases h <;> omega), hlst]
+    have hidx1 : σ1 (.t c2) = .int (j : Nat) := by
+      rw [← hσ1, set_other _ _ (by intro h; cases h <;> omega), set_other _ _ (by intro h; cases h <;> omega),
+        set_other _ _ (by intro h; cases h <;> omega), hidx]
+    have hf1 : Frame copt σ σ1 := by
+      rw [← hσ1]
+      exact ((Frame.set_tmp σ _ (by omega)).trans (Frame.set_tmp _ _ (Nat.le_refl _)) (Nat.le_refl _)).trans
+        (Frame.set_tmp _ _ (by omega)) (Nat.le_refl _)
+    have sb : ExecS P σ1 (.assign (.x x) (.cloneProj (.t copt) 0 0)) [] (.normal (σ1.set (.x x) (.int v))) :=
+      .assign (.pure (by simp [evalValue, hopt1, payload]))
+    -- the increment block, from any store that still holds the index
+    have incr : ∀ σ2 : Store, σ2 (.t c2) = .int (j : Nat) →
+        ExecC P σ2 [.assign (.t (c2 + 1)) (.const (.int 1)), .assign (.t c2) (.idxAdd (.t c2) (.t (c2 + 1)))] []
+          (.normal ((σ2.set (.t (c2 + 1)) (.int 1)).set (.t c2) (.int ((j + 1 : Nat) : Nat)))) := by
+      intro σ2 h2
+      have i1 : ExecS P σ2 (.assign (.t (c2 + 1)) (.const (.int 1))) [] (.normal (σ2.set (.t (c2 + 1)) (.int 1))) :=
+        .assign (.pure (by simp [evalValue]))
+      have i2 : ExecS P (σ2.set (.t (c2 + 1)) (.int 1)) (.assign (.t c2) (.idxAdd (.t c2) (.t (c2 + 1)))) []
+          (.normal ((σ2.set (.t (c2 + 1)) (.int 1)).set (.t c2) (.int ((j + 1 : Nat) : Nat)))) :=
+        .assign (.pure (by
+          have : (σ2.set (.t (c2 + 1)) (.int 1)) (.t c2) = .int (j : Nat) := by
+            rw [set_other _ _ (by intro h; cases h <;> omega), h2]
+          simp [evalValue, this]))
+      simpa using ExecC.cons i1 (ExecC.single i2)
+    constructor
+    · intro t env' w h
+      simp only [evalFor] at h
+      cases hx : lookup env x with
+      | some _ => simp [hx, R.stuck] at h
+      | none =>
+        simp only [hx, bind_eq, bind_ok_iff] at h
+        obtain ⟨t1, ⟨env1, bv⟩, t2, hbody, hrest, rfl⟩ := h
+        obtain ⟨σ2, hx2, _, ha2, hf2⟩ := (hB b ((x, .int v) :: env) (c2 + 4) cb xb c3 _ hb (ha1.cons x (.int v))).1 t1 env1 bv hbody
+        have hidx2 : σ2 (.t c2) = .int (j : Nat) := by
+          rw [hf2 c2 (by omega), set_other _ _ (by intro h; cases h), hidx1]
+        have hlst2 : σ2 (.t kl) = .list all := by
+          rw [hf2 kl (by omega), set_other _ _ (by intro h; cases h), hlst1]
+        have hi := incr σ2 hidx2
+        have hlst3 : ((σ2.set (.t (c2 + 1)) (.int 1)).set (.t c2) (.int ((j + 1 : Nat) : Nat))) (.t kl) = .list all := by
+          rw [set_other _ _ (by intro h; cases h <;> omega), set_other _ _ (by intro h; cases h <;> omega), hlst2]
+        obtain ⟨σ4, hx4, rfl, ha4, hf4⟩ := (hR x b (leave env env1) all vs (j + 1) kl c2 copt cb xb c3 _ hb
+          ((ha2.leave.set_tmp _ _).set_tmp _ _) hlst3 (by simp) hdrop' hcopt hkl).1 t2 env' w hrest
+        refine ⟨σ4, ?_, rfl, ha4, ?_⟩
+        · have hbody' : ExecC P σ1 ([.assign (.x x) (.cloneProj (.t copt) 0 0)] ++ cb) t1 (.normal σ2) := by
+            simpa using ExecC.cons sb hx2
+          have := ExecS.forStep hc hd1 hbody' hi hx4
+          simpa [List.append_assoc] using this
+        · exact ((((hf1.trans (Frame.set_x _ _ _ _) (Nat.le_refl _)).trans (hf2.mono (by omega)) (Nat.le_refl _)).trans
+            (Frame.set_tmp _ _ (by omega)) (Nat.le_refl _)).trans (Frame.set_tmp _ _ (by omega)) (Nat.le_refl _)).trans hf4 (Nat.le_refl _)
+    · intro t w h
+      simp only [evalFor] at h
+      cases hx : lookup env x with
+      | some _ => simp [hx, R.stuck] at h
+      | none =>
+        simp only [hx, bind_eq, bind_ret_iff] at h
+        rcases h with h | ⟨t1, ⟨env1, bv⟩, t2, hbody, hrest, rfl⟩
+        · have hr := (hB b ((x, .int v) :: env) (c2 + 4) cb xb c3 _ hb (ha1.cons x (.int v))).2 t w h
+          have hbody' : ExecC P σ1 ([.assign (.x x) (.cloneProj (.t copt) 0 0)] ++ cb) t (.returned w) := by
+            simpa using ExecC.cons sb hr
+          simpa using ExecS.forBodyRet hc hd1 hbody'
+        · obtain ⟨σ2, hx2, _, ha2, hf2⟩ := (hB b ((x, .int v) :: env) (c2 + 4) cb xb c3 _ hb (ha1.cons x (.int v))).1 t1 env1 bv hbody
+          have hidx2 : σ2 (.t c2) = .int (j : Nat) := by
+            rw [hf2 c2 (by omega), set_other _ _ (by intro h; cases h), hidx1]
+          have hlst2 : σ2 (.t kl) = .list all := by
+            rw [hf2 kl (by omega), set_other _ _ (by intro h; cases h), hlst1]
+          have hi := incr σ2 hidx2
+          have hlst3 : ((σ2.set (.t (c2 + 1)) (.int 1)).set (.t c2) (.int ((j + 1 : Nat) : Nat))) (.t kl) = .list all := by
+            rw [set_other _ _ (by intro h; cases h <;> omega), set_other _ _ (by intro h; cases h <;> omega), hlst2]
+          have hx4 := (hR x b (leave env env1) all vs (j + 1) kl c2 copt cb xb c3 _ hb
+            ((ha2.leave.set_tmp _ _).set_tmp _ _) hlst3 (by simp) hdrop' hcopt hkl).2 t2 w hrest
+          have hbody' : ExecC P σ1 ([.assign (.x x) (.cloneProj (.t copt) 0 0)] ++ cb) t1 (.normal σ2) := by
+            simpa using ExecC.cons sb hx2
+          have := ExecS.forStep hc hd1 hbody' hi hx4
+          simpa [List.append_assoc] using this
+
 theorem simSeq_step {fns P n} (hE : SimE fns P n) (hS : SimSeq fns P n) : SimSeq fns P (n + 1) := by
   intro b env c code x c' σ hl ha
   cases b with
@@ -1642,9 +1926,9 @@ theorem simWhile_step {fns P n} (hE : SimE fns P n) (hB : SimBlock fns P n) (hW 
 
 theorem sim_all (fns : List FnDef) (P : Prog) (hP : ProgOk fns P) :
     ∀ n, SimE fns P n ∧ SimArgs fns P n ∧ SimSeq fns P n ∧ SimBlock fns P n ∧ SimWhile fns P n ∧ SimFields fns P n ∧ SimChain fns P n
-      ∧ SimCtor fns P n ∧ SimParts fns P n
+      ∧ SimCtor fns P n ∧ SimParts fns P n ∧ SimElems fns P n ∧ SimFor fns P n
   | 0 => by
-    refine ⟨?_, ?_, ?_, ?_, ?_, ?_, ?_, ?_, ?_⟩
+    refine ⟨?_, ?_, ?_, ?_, ?_, ?_, ?_, ?_, ?_, ?_, ?_⟩
     · intro e env c code value c' σ _ _
       exact ⟨fun t env' v h => by simp [evalExpr, R.fuel] at h, fun t v h => by simp [evalExpr, R.fuel] at h⟩
     · intro es env c code tmps c' σ _ _
@@ -1663,10 +1947,14 @@ theorem sim_all (fns : List FnDef) (P : Prog) (hP : ProgOk fns P) :
       exact ⟨fun t env' v h => by simp [evalInts, R.fuel] at h, fun t v h => by simp [evalInts, R.fuel] at h⟩
     · intro ps env k c code c' σ acc _ _ _ _
       exact ⟨fun t env' v h => by simp [evalParts, R.fuel] at h, fun t v h => by simp [evalParts, R.fuel] at h⟩
+    · intro es env k u c code c' σ pre _ _ _ _
+      exact ⟨fun t env' v h => by simp [evalInts, R.fuel] at h, fun t v h => by simp [evalInts, R.fuel] at h⟩
+    · intro x b env all xs j kl c2 copt cb xb c3 σ _ _ _ _ _ _ _
+      exact ⟨fun t env' v h => by simp [evalFor, R.fuel] at h, fun t v h => by simp [evalFor, R.fuel] at h⟩
   | n + 1 => by
-    obtain ⟨hE, hA, hS, hB, hW, hF, hC, hK, hT⟩ := sim_all fns P hP n
-    exact ⟨simE_step hE hA hF hB hW hC hK hT hP, simArgs_step hE hA, simSeq_step hE hS, simBlock_step hS, simWhile_step hE hB hW,
-      simFields_step hE hF, simChain_step hE hB hC, simCtor_step hE hK, simParts_step hE hT⟩
+    obtain ⟨hE, hA, hS, hB, hW, hF, hC, hK, hT, hL, hR⟩ := sim_all fns P hP n
+    exact ⟨simE_step hE hA hF hB hW hC hK hT hL hR hP, simArgs_step hE hA, simSeq_step hE hS, simBlock_step hS, simWhile_step hE hB hW,
+      simFields_step hE hF, simChain_step hE hB hC, simCtor_step hE hK, simParts_step hE hT, simElems_step hE hL, simFor_step hB hR⟩
 
 
 /-! ### the structured MIR is deterministic -/
@@ -1728,6 +2016,32 @@ theorem ExecS.det {P : Prog} : ∀ {σ : Store} {s : Stm} {t t' : Trace} {o o' :
   | _, _, _, _, _, _, .iteDElse _ _ h, .iteDElse _ _ h' => ExecC.det h h'
   | _, _, _, _, _, _, .iteDThen e _, .iteDElse e' ne _ => by rw [e] at e'; cases e'; exact (ne rfl).elim
   | _, _, _, _, _, _, .iteDElse e ne _, .iteDThen e' _ => by rw [e] at e'; cases e'; exact (ne rfl).elim
+  | _, _, _, _, _, _, .push a b, .push a' b' => by
+    rw [a] at a'; cases a'; rw [b] at b'; cases b'; exact ⟨rfl, rfl⟩
+  | _, _, _, _, _, _, .forDone c e ne, .forDone c' e' ne' => by
+    obtain ⟨rfl, h⟩ := ExecC.det c c'; cases h; exact ⟨rfl, rfl⟩
+  | _, _, _, _, _, _, .forDone c e ne, .forBodyRet c' e' _ => by
+    obtain ⟨_, h⟩ := ExecC.det c c'; cases h; rw [e] at e'; cases e'; exact (ne rfl).elim
+  | _, _, _, _, _, _, .forDone c e ne, .forStep c' e' _ _ _ => by
+    obtain ⟨_, h⟩ := ExecC.det c c'; cases h; rw [e] at e'; cases e'; exact (ne rfl).elim
+  | _, _, _, _, _, _, .forBodyRet c e b, .forDone c' e' ne' => by
+    obtain ⟨_, h⟩ := ExecC.det c c'; cases h; rw [e] at e'; cases e'; exact (ne' rfl).elim
+  | _, _, _, _, _, _, .forBodyRet c e b, .forBodyRet c' e' b' => by
+    obtain ⟨rfl, h⟩ := ExecC.det c c'; cases h
+    obtain ⟨rfl, h⟩ := ExecC.det b b'; cases h; exact ⟨rfl, rfl⟩
+  | _, _, _, _, _, _, .forBodyRet c e b, .forStep c' e' b' _ _ => by
+    obtain ⟨_, h⟩ := ExecC.det c c'; cases h
+    obtain ⟨_, h⟩ := ExecC.det b b'; cases h
+  | _, _, _, _, _, _, .forStep c e b i r, .forDone c' e' ne' => by
+    obtain ⟨_, h⟩ := ExecC.det c c'; cases h; rw [e] at e'; cases e'; exact (ne' rfl).elim
+  | _, _, _, _, _, _, .forStep c e b i r, .forBodyRet c' e' b' => by
+    obtain ⟨_, h⟩ := ExecC.det c c'; cases h
+    obtain ⟨_, h⟩ := ExecC.det b b'; cases h
+  | _, _, _, _, _, _, .forStep c e b i r, .forStep c' e' b' i' r' => by
+    obtain ⟨rfl, h⟩ := ExecC.det c c'; cases h
+    obtain ⟨rfl, h⟩ := ExecC.det b b'; cases h
+    obtain ⟨rfl, h⟩ := ExecC.det i i'; cases h
+    obtain ⟨rfl, h⟩ := ExecS.det r r'; exact ⟨rfl, h⟩
   | _, _, _, _, _, _, .mtchArm e g a x, .mtchArm e' g' a' x' => by
     rw [e] at e'; cases e'
     obtain ⟨rfl, h⟩ := ExecG.det g g'; cases h
